@@ -371,6 +371,14 @@ def main_check(check, argv=None):
     jobs = [(check, s, None) for s in scns]
     results = run_parallel(_run_one, jobs, workers, wall=check.run_wall)
 
+    # a child killed by the wall limit (machine overloaded) gets one more chance with little parallelism
+    retry = [i for i, r in enumerate(results) if r and not r.get("ok") and r.get("timeout")]
+    if retry and len(retry) <= max(8, len(results) // 10):
+        again = run_parallel(_run_one, [jobs[i] for i in retry], max(2, workers // 4), wall=check.run_wall * 2)
+        for i, r in zip(retry, again):
+            if r and r.get("ok"):
+                results[i] = r
+
     # determinism self-check: re-run a sample, digests must be identical
     ndet = min(len(scns), 6 if tier == "quick" else 24)
     det_idx = [int(i * len(scns) / ndet) for i in range(ndet)]
